@@ -424,6 +424,11 @@ def run_property(modname, tier='quick', seed=0, rebaseline=False, only=None, can
     for c in reg.contracts.values():
         if c.opaque or c.trusted:
             rep.assumptions.append(f'assumed contract (body not verified): {c.name}' + (f' — {c.note}' if c.note else ''))
+    for c in reg.contracts.values():
+        for nm, _ in c.pre_assume:
+            rep.assumptions.append(f'assumed at the entry of {c.name}, NOT checked at its call sites: {nm}')
+        if c.allow_raise:
+            rep.assumptions.append(f'{c.name} may raise {"/".join(c.allow_raise)} as far as the proof goes (no safety obligation for it; callers assume normal return)')
     rep.assumptions += list(getattr(module, 'ASSUMPTIONS', []))
     bl0 = baseline().get(pid, {})
     for c in under:
